@@ -58,7 +58,9 @@ PLAIN_LABELS = ["A", "B", "C", "D", "E", "F", "G", "H", "t1", "t2", "T3", "x9", 
                 "a1b2", "g7", "Qx", "Python.regius", "n0"]
 SPACED_LABELS = ["Homo sapiens", "a b", "x 1", "P t v", "Mus m"]
 QUOTED_LABELS = ["it's", "x(1)", "a,b", "a:b", "[c]", "se;mi", "un_der", "e=mc", "{br}", "h-y", "sl/ash", "q\"d",
-                 "'q'"]
+                 "'q'",
+                 # whole labels that are one structural character: legal when quoted
+                 ",", "(", ")", ":", ";", "[", "]", "=", "'", "{", "\\"]
 NEXUS_KEYWORDS = ["BEGIN", "END", "ENDBLOCK", "MATRIX", "TREE", "TRANSLATE", "LINK", "TITLE", "DIMENSIONS", "FORMAT",
                   "TAXLABELS", "TAXA", "CHARACTERS", "DATA", "TREES", "SETS", "CHARSET", "NTAX", "NCHAR", "DATATYPE",
                   "INTERLEAVE", "GAP", "MISSING", "MATCHCHAR", "SYMBOLS", "ASSUMPTIONS", "CODONS", "#NEXUS"]
@@ -116,6 +118,8 @@ META_COMMENTS = ["[&m=1]", "[&a=1,b=2]", "[&r={1,2}]", "[&s=\"x y\"]", "[&&NHX:S
                  "[&!color=#ff0000]", "[&b=true]"]
 WS = [" ", " ", " ", "\n", "\t", "  ", "\r\n", " \n "]
 
+WEIGHT_TEXTS = ["1/2", "0.25", "3", "1/0", "0/0", "0/1", "x/y", "1/y", "", " ", "1/2/3", "1/", "/2", "1e400/1", "-1",
+                "nan", "1 / 2", "1/2 x"]
 META_KEYS = ["support", "x", "rate", "!color", "height_95%_HPD", "a b", "k", "posterior", ""]
 META_VALUES = ["1", "0.95", "-1e-3", "abc", "\"x y\"", "{1,2}", "{0.1,0.2,0.3}", "{a}", "{}", "true", "FALSE", "'q'",
                "#ff0000", "", "", " ", "  ", "\t", "{1,2", "1,2}", "{", "}", "{{1},2}", "{ }", "=", "a=b", "\"", "{,}",
@@ -128,6 +132,9 @@ def meta_comments(draw):
     words, quoted strings, {a,b} lists, and the degenerate forms an interrupted or hand-edited file has - empty,
     blank-only, unbalanced or stray braces, stray '=' and quotes; blanks around '=' and ','.  Comments are free text: a
     reader must accept a document whatever its comments hold."""
+    if draw(st.integers(0, 5)) == 0:
+        # tree weight comment (honoured under store_tree_weights=True, free text otherwise), also degenerate ones
+        return "[&%s %s]" % (draw(st.sampled_from("WWw")), draw(st.sampled_from(WEIGHT_TEXTS)))
     nhx = draw(st.integers(0, 5)) == 0
     pairs = []
     for _ in range(draw(st.sampled_from([1, 1, 1, 2, 2, 3]))):
@@ -185,7 +192,7 @@ def _kw(draw, word, fancy=True):
 # ---------------------------------------------------------------------------
 
 LENGTH_TEXTS = ["1", "0", "0.5", "2.25", "1e-3", "1.5E2", "3.0e+1", ".5", "10", "0.125", "-0.5", "1.0", "7"]
-INTERNAL_LABELS = [("n1", "n1"), ("X", "X"), ("95", "95"), ("0.87", "0.87"), ("anc_1", "anc 1"), ("'in t'", "in t"),
+INTERNAL_LABELS = [("','", ","), ("')'", ")"), ("';'", ";"), ("':'", ":"), ("n1", "n1"), ("X", "X"), ("95", "95"), ("0.87", "0.87"), ("anc_1", "anc 1"), ("'in t'", "in t"),
                    ("100", "100"), ("'a(b)'", "a(b)")]
 
 
@@ -782,7 +789,8 @@ def load_corpus(directory=None):
 # ---------------------------------------------------------------------------
 
 KEYWORDS = {
-    "newick": [";", "(", ")", ",", ":", "[&R]", "[&U]", "[", "]", "'", "()", "(,)", ":1", ";;"],
+    "newick": [";", "(", ")", ",", ":", "[&R]", "[&U]", "[", "]", "'", "()", "(,)", ":1", ";;", "{1}", "{x}", "{", "}",
+               "{1.5}", "{}", "{2", "[&W 1/0]", "[&W x]", "','", "';'", "')'"],
     "nexus": ["BEGIN", "END", "ENDBLOCK", "MATRIX", ";", "TREE", "TRANSLATE", "LINK", "TITLE", "DIMENSIONS", "FORMAT",
               "TAXLABELS", "CHARSET", "BEGIN TAXA;", "BEGIN TREES;", "BEGIN DATA;", "BEGIN CHARACTERS;", "BEGIN SETS;",
               "END;", "NTAX=2", "NCHAR=3", "NTAX", "NCHAR", "INTERLEAVE", "DATATYPE=DNA", "DATATYPE", "SYMBOLS=\"01\"",
@@ -966,7 +974,7 @@ _FORMAT_ITEMS = ["DATATYPE=DNA", "DATATYPE=RNA", "DATATYPE=PROTEIN", "DATATYPE=S
                  "ITEMS=MEAN", "NOLABELS", "EQUATE=\"R=(AG)\""]
 _ROW_SEQS = ["ACG", "AC", "ACGT", "A C G", "010", "01", "0{01}1", "0(01)1", "{AG}CG", "A{}G", "A(G", "A{Z}G", "...",
              ".CG", "?-N", "1.5 2 3", "1 2", "x y z", "ACG\n", "AC\n", "0 1 0"]
-_POSITIONS = ["1", "1-2", "1-3", "2-.", "1-3\\2", "1-3\\0", "1-3/2", "all", "ALL", "0", "4", "9-10", "3-1", "1 2 3",
+_POSITIONS = ["1-99999999999", "99999999999", "2-99999999999\\3", "1-3\\99999999999", "0-2", "0", "3-1", "1-0", "1", "1-2", "1-3", "2-.", "1-3\\2", "1-3\\0", "1-3/2", "all", "ALL", "0", "4", "9-10", "3-1", "1 2 3",
               "1,2", "-", "1-", "1-x", "foo", ".", "1-3\\", "1 - 2", "", "2-2"]
 _NEWICKS = ["(a,b)", "(a,(b,c))", "(1,2)", "((1,2),3)", "(1,(2,zz))", "(a,zz)", "(1,2)", "(a,b)", "(a:1,b:2):0", "a", "(a,a)", "(a,b", "a,b)", "()", "(,)",
             "[&R] (a,b)", "[&U](a,b,c)", "(a,b)[&x=1]", "(a[&x={1,2}],b)", "('q r',b)", "(a,b);(c,d)", ""]
@@ -1124,7 +1132,7 @@ def nexus_link_soups(draw):
                 existing = {"CHARACTERS": matrix_titles, "TAXA": taxa_titles, "TREES": tree_titles}[kind]
                 out += "  LINK %s = %s;\n" % (kind, _title_ref(draw, existing))
             for k in range(draw(st.integers(1, 2))):
-                out += "  CHARSET cs%d = %s;\n" % (k + 1, draw(st.sampled_from(["1-2", "1", "2-3", "1-3\\2", "all"])))
+                out += "  CHARSET cs%d = %s;\n" % (k + 1, draw(st.sampled_from(["1-2", "1", "2-3", "1-3\\2", "all"] * 3 + _POSITIONS)))
             out += "END;\n"
         else:
             out += "BEGIN TREES;\n"
